@@ -36,6 +36,14 @@ CHECKS = {
              text="Decides a necessary condition per cell: without a path from the endpoint's write branch to a persistence call with a storage effect, an acknowledged write of that kind cannot survive a restart. Ten cells fail today (known findings).", ref="§5 C19"),
  "C32": dict(tech="HIR match-arm facts (variant -> callee sets) for the state machine, shared must-pass storage-effect rule (C16), CHA reachability for nondeterminism sources, must-pass in RaftNode::write",
              text="Decides the wiring of each replicated request kind to its own persistence function with a storage effect, error surfacing, determinism of apply (no RNG/env/clock outside entity timestamps) and apply-before-acknowledge.", ref="§5 C32"),
+ "C06": dict(tech="transitive field write/read effects over the call graph (mutator kind table), representation-completeness of deleting mutators vs creators/compaction, raw-handle bypass inventory",
+             text="Decides which representations of an edge/node each mutator maintains: a deleting mutator that recycles ids must cover every representation creators and compaction write (three known findings: the frozen CSR tier), counts read only maintained data, creators are complete, labels of stored nodes change only through index-maintaining methods.", ref="§5 C06"),
+ "C07": dict(tech="copy-on-write guard rule on functions taking last_mut of a version chain; generic-instantiation match for flatten over Vec<Vec<Node>>; chain-emptying callee class in delete_node",
+             text="Decides the three structural ways versioned reads break: in-place mutation of an old version (three known findings: get_node_mut, add/remove_label), scans enumerating all versions, deletion leaving older versions.", ref="§5 C07"),
+ "C08": dict(tech="closure-predicate evaluation over version orderings, range-type and def-use check of the drain bound, aggregate shape of the watermark",
+             text="Decides that GC keeps the latest version at or below the watermark (rposition predicate class, exclusive drain of exactly that index) and that the automatic watermark is the min start version of active transactions.", ref="§5 C08"),
+ "C09": dict(tech="dominance / must-pass obligations over the MIR of commit/abort, predicate evaluation of the conflict test, per-variant read-version table from the discriminant switch",
+             text="Decides the per-call obligations of first-committer-wins (status gate, strict conflict predicate on both write sets, strictly increasing version on every success, terminal statuses) and the read version per isolation level. Interleaving enumeration is not needed for these (commit takes &mut self) and not claimed beyond them.", ref="§5 C09"),
 }
 
 NA = {
